@@ -192,7 +192,7 @@ def draw_cfg(rng, prop: str, tier: str, overrides=None) -> dict:
         w["remove"] = max(w.get("remove", 0), 10)
         cfg["p_steer"] = max(cfg["p_steer"], 0.3)
         cfg["p_refuse"] = max(cfg["p_refuse"], 0.1)
-        if "s" not in cfg["flavours"]:
+        if "s" not in cfg["flavours"] and primary != "fs":
             cfg["flavours"].append("s")
     cfg["weights"] = w
     keys = []
